@@ -108,7 +108,11 @@ func Apply(run *evid.Run, rep *Report, prop string, keep func(sig string) bool) 
 				samples = append(samples, s.Name+": "+x)
 			}
 		}
-		run.Set("scenario:"+s.Name, map[string]interface{}{"schedules": s.Schedules, "scheduling_points": s.Points, "longest_schedule": s.Longest,
+		var sigs []string
+		for _, f := range s.Findings {
+			sigs = append(sigs, f.Sig)
+		}
+		run.Set("scenario:"+s.Name, map[string]interface{}{"findings": sigs, "schedules": s.Schedules, "scheduling_points": s.Points, "longest_schedule": s.Longest,
 			"preemption_bound_completed": s.BoundDone, "max_preemptions_taken": s.Preemptions, "distinct_outcomes": s.Outcomes,
 			"exhaustive_within_bound": s.Exhaustive, "points_pruned_by_state_key": s.Pruned, "wall_s": s.WallS,
 			"prefixes_not_replayable": s.Diverged, "divergence_sample": s.DivSample})
